@@ -1,3 +1,66 @@
-(* heap_ops2.ml - further heap-mode ops (blocks, copy, deepCopy, reassignIds, route tracing, durations) *)
+(* heap_ops2.ml - further heap-mode ops (blocks, times, copy, deepCopy, deepCopyTo, reassignIds, route
+   tracing, durations, object-creation helpers); same syntax and output as harness/cpp/heap_ops2.hpp *)
 open Model
-let run_op2 (_s : state) (_t : string list) : (state * string) option = None
+open Conv
+
+exception Bad2
+
+let num s = int_of_string (String.sub s 1 (String.length s - 1))
+let pos_of_name s = pos_of_int (num s + 1)
+let hname p = "h" ^ string_of_int (int_of_pos p - 1)
+
+let exn_name = function
+  | Cycle -> "Cycle" | OtherDoc -> "OtherDoc" | IdInUse -> "IdInUse" | TypeMismatch -> "TypeMismatch"
+  | UidExclusive -> "UidExclusive" | Silent -> "Silent" | BlockId -> "BlockId" | BadHandle -> "BadHandle"
+  | OutOfFuel -> "OutOfFuel" | BadValue -> "BadValue" | OtherExn -> "Other"
+
+let parse_tm (s : string) : ztime =
+  if String.sub s 0 3 = "ns:" then ZNs (z_of_int (int_of_string (String.sub s 3 (String.length s - 3))))
+  else
+    let body = String.sub s 3 (String.length s - 3) in
+    match String.split_on_char '/' body with
+    | [a; b] -> ZFr (z_of_int (int_of_string a), z_of_int (int_of_string b))
+    | _ -> raise Bad2
+let parse_otm s = if s = "-" then None else Some (parse_tm s)
+
+let show (r : (xvalue, exn) sum) : string =
+  match r with
+  | Inl (XV _) -> "ok"
+  | Inl (XRoutes rs) ->
+      "ok routes [" ^ String.concat "|" (List.map (fun r -> String.concat ">" (List.map hname r)) rs) ^ "]"
+  | Inr e -> "exn " ^ exn_name e
+
+let run_op2 (taken : string -> bool) (handle : string -> positive) (s : state) (t : string list)
+  : (state * string) option =
+  let go (o : xop) = let (s', r) = drv_xexec o s in Some (s', show r) in
+  match t with
+  | ["block"; h; ty; a; b; c; rt; du] ->
+      go (XAddBlock (handle h, n_of_string ty, { ity = n_of_string a; ival = n_of_string b; ictr = n_of_string c },
+                     parse_otm rt, parse_otm du))
+  | ["settimes"; h; st; en] -> go (XSetTimes (handle h, parse_otm st, parse_otm en))
+  | ["copy"; h; n] -> if taken n then Some (s, "exn BadHandle") else go (XCopy (handle h, pos_of_name n))
+  | ["deepcopy"; d; d2; base] -> go (XDeepCopy (pos_of_name d, pos_of_name d2, pos_of_int (int_of_string base + 1)))
+  | ["deepcopyto"; d; d2; base] -> go (XDeepCopyTo (pos_of_name d, pos_of_name d2, pos_of_int (int_of_string base + 1)))
+  | ["reassign"; d] -> go (XReassign (pos_of_name d))
+  | ["trace"; p] -> go (XTrace (handle p))
+  | ["fixdur"; d; len] -> go (XFixDur (pos_of_name d, parse_otm len))
+  | "simple" :: d :: base :: rest ->
+      let short = (rest = ["short"]) in
+      let b = int_of_string base in
+      if List.exists (fun k -> taken ("h" ^ string_of_int (b + k))) [0; 1; 2; 3; 4; 5] then Some (s, "exn BadHandle")
+      else begin
+        let dd = if d = "-" then None else Some (pos_of_name d) in
+        let missing = (match dd with
+            | Some p -> not (List.exists (fun (q, _) -> q = p) (drv_docs s))
+            | None -> false) in
+        if missing then Some (s, "exn BadHandle") else
+        let ops = drv_simple_object_ops dd (pos_of_int (b + 1)) short in
+        (* the helper is a plain sequence of API calls; the first failing one ends it *)
+        let rec loop s ops = match ops with
+          | [] -> (s, "ok")
+          | o :: r -> (match drv_xexec o s with
+                       | (s', Inl _) -> loop s' r
+                       | (s', Inr e) -> (s', "exn " ^ exn_name e)) in
+        Some (loop s ops)
+      end
+  | _ -> None
